@@ -269,3 +269,44 @@ Qed.
 
 Lemma no_wildcard_first_key : mem_Z K_Any first_keys = false.
 Proof. vm_compute. reflexivity. Qed.
+
+(* ---------------------------------------------------------------------- *)
+(* Escape typed while TWO keys are pending (three-key rows: dquote + register +
+   operator, `g` + ..., Escape/C-x sequences).  The second key ranges over every
+   key that occurs in the table plus one key that occurs nowhere (999999: any
+   key the table does not mention is matched by the same rows, the wildcard
+   ones). *)
+Definition first_keys3 : list Z :=
+  nodup Z.eq_dec (flat_map (fun b => match bkeys b with k :: _ :: _ :: _ => [k] | _ => [] end) bindings).
+Definition table_keys : list Z := nodup Z.eq_dec (flat_map bkeys bindings).
+Definition fresh_key : Z := 999999.
+Definition pending_pairs : list (Z * Z) :=
+  flat_map (fun k1 => map (fun k2 => (k1, k2)) (fresh_key :: table_keys)) first_keys3.
+
+Definition escape_progress3 (o : outcome) : bool :=
+  match o with
+  | Call idx m =>
+      if m =? 3 then match handler_at idx with Some h => h =? h_back_to_navigation | None => false end
+      else (m =? 1) || (m =? 2)
+  | DropOne => true
+  | Wait => false
+  end.
+
+Lemma fresh_key_is_fresh : mem_Z fresh_key table_keys = false.
+Proof. vm_compute. reflexivity. Qed.
+
+Lemma escape_after_two_pending_check :
+  forallb (fun p => dispatch_check [fst p; snd p; K_Escape] vi_fixed escape_progress3) pending_pairs = true.
+Proof. vm_cast_no_check (eq_refl true). Qed.
+
+Lemma escape_after_two_pending : forall (v : Z -> bool) (flush : bool) (k1 k2 : Z),
+  In (k1, k2) pending_pairs ->
+  v a_vi_mode = true -> v a_emacs_mode = false -> v a_buffer_has_focus = true ->
+  v a_in_quoted_insert = false ->
+  escape_progress3 (match_step bindings v [k1; k2; K_Escape] flush) = true.
+Proof.
+  intros v flush k1 k2 Hk H1 H2 H3 H4.
+  pose proof escape_after_two_pending_check as C. rewrite forallb_forall in C.
+  apply (dispatch_check_sound _ _ _ (C (k1, k2) Hk)).
+  intros a b [E|[E|[E|[E|[]]]]]; injection E as <- <-; assumption.
+Qed.
